@@ -614,6 +614,7 @@ func cmdCheck(prop, tier string) int {
 		f.Replay = rp
 		reproduced := false
 		detail := ""
+		nativeOther := ""
 		if spec != nil && spec.NoReplay {
 			reproduced, detail = true, "not replayed (root marked no_replay)"
 		} else if f.Model == nil {
@@ -632,12 +633,22 @@ func cmdCheck(prop, tier string) int {
 					switch f.Kind {
 					case "assert":
 						reproduced = o.Assert == f.ID
+						if !reproduced && o.Assert != "" && !o.Assume && !knownAssert(known, prop, o.Assert) {
+							// the real code, on the solver's inputs, fails ANOTHER property assertion of the
+							// same root (model and native schedules differ in which one is hit first): the
+							// native failure is the violation that is reported
+							reproduced = true
+							nativeOther = o.Assert
+						}
 					case "panic":
 						reproduced = o.Panic != ""
 					case "unwind", "deadlock":
 						reproduced = o.Hang
 					}
 					detail = fmt.Sprintf("native (attempt %d): done=%v assert=%q panic=%q hang=%v assume=%v", attempt+1, o.Done, o.Assert, o.Panic, o.Hang, o.Assume)
+					if nativeOther != "" {
+						detail += fmt.Sprintf(" [solver predicted %q; the native run of the same inputs fails %q]", f.ID, nativeOther)
+					}
 					if f.Kind == "unwind" || f.Kind == "deadlock" {
 						break
 					}
@@ -824,6 +835,22 @@ func (e *KnownFinding) appliesTo(prop string) bool {
 	for _, a := range e.Also {
 		if a == prop {
 			return true
+		}
+	}
+	return false
+}
+
+// knownAssert: does a failing assertion name belong to a listed (status known) finding of the property?
+func knownAssert(known []KnownFinding, prop, id string) bool {
+	for k := range known {
+		e := &known[k]
+		if !e.appliesTo(prop) || e.Status != "known" {
+			continue
+		}
+		for _, a := range e.Asserts {
+			if strings.HasPrefix(id, a) {
+				return true
+			}
 		}
 	}
 	return false
